@@ -20,6 +20,9 @@ class BaseTCPGateway(Gateway):
 
     def __init__(self, host, port=5003, **kwargs):
         """Set up base TCP gateway."""
+        # The transport options have been consumed by the transport.
+        kwargs.pop("timeout", None)
+        kwargs.pop("reconnect_timeout", None)
         super().__init__(**kwargs)
         self.server_address = (host, port)
         self.tcp_check_timer = time.time()
